@@ -111,6 +111,9 @@ func Worker(jobPath string) error {
 			}
 		}
 		c := core.NewCtx(job.Tier)
+		if maxWall > 0 {
+			c.Deadline = start.Add(maxWall)
+		}
 		out := core.SafeRun(p, sc, c)
 		if out.Digest != "" && i < job.KeepDigests {
 			if res.Digests == nil {
